@@ -446,6 +446,7 @@ fn main() {
         src.push_str("#[tauri::command]\npub fn user_types_named_like_injected(request: Request, channel: Channel2, pane: crate::dto::Window, other: u32) -> u32 { 0 }\n");
         src.push_str("#[tauri::command(rename_all = \"snake_case\")]\npub fn macro_snake(user_name: String, retry_count: u32, on_event: Channel<u32>, app: tauri::AppHandle) -> u32 { 0 }\n#[tauri::command(async, rename_all = \"camelCase\")]\npub fn macro_camel(user_name: String) -> u32 { 0 }\n#[command(rename_all = \"snake_case\")]\npub fn bare_macro_snake(user_name: String) -> u32 { 0 }\n#[tauri::command(async)]\npub fn macro_plain(user_name: String) -> u32 { 0 }\n");
         src.push_str("#[tauri::command(root = \"crate\", rename_all = \"snake_case\")]\npub fn macro_root_first(file_name: String, on_event: Channel<u32>) -> u32 { 0 }\n#[tauri::command(rename_all = \"snake_case\", root = \"crate\")]\npub fn macro_root_last(file_name: String) -> u32 { 0 }\n");
+        src.push_str("#[tauri::command]\npub fn tauri_data(window: tauri::Window, new_size: tauri::LogicalSize<f64>, color_scheme: tauri::Theme, target_url: tauri::Url, origin: tauri::PhysicalPosition<i32>, maybe_theme: Option<tauri::Theme>) -> u32 { 0 }\n");
         src.push_str("#[tauri::command]\npub fn channel_spellings(id: u32, on_a: tauri::ipc::Channel<u32>, on_b: tauri::ipc::Channel, on_c: ipc::Channel<String>) -> u32 { 0 }\n");
         src.push_str("#[tauri::command]\npub fn opt_paths(plain: Option<u32>, std_path: std::option::Option<u32>, core_path: core::option::Option<String>, abs_path: ::std::option::Option<bool>, required: u32) -> u32 { 0 }\n");
         src.push_str("#[tauri::command]\npub fn r#move(first_arg: String, r#type: u32, on_event: Channel<u32>) -> u32 { 0 }\n");
@@ -512,6 +513,14 @@ fn main() {
                 if block.is_empty() { return Err("UNPARSED: no declaration of ChannelSpellingsParams".into()); }
                 for k in ["onA", "onB", "onC"] { if !block.contains(&format!("{}:", k)) && !block.contains(&format!("{}?:", k)) { return Err(format!("the argument object of channel_spellings has no key `{}`: every Channel parameter is filled from the frontend", k)); } }
                 Ok("ok".into())
+            });
+            rep.case("invoke_keys_in_generated_bindings", &format!("fn tauri_data(window: tauri::Window, new_size: tauri::LogicalSize<f64>, color_scheme: tauri::Theme, target_url: tauri::Url, origin: tauri::PhysicalPosition<i32>, maybe_theme: Option<tauri::Theme>) mode={}", mode), &|| {
+                let files = generate(&dir, &root.join(format!("inject/out_{}", mode)), mode)?;
+                let t = files.get("types.ts").ok_or("no types.ts")?;
+                let mut keys = object_keys(t, "TauriDataParams", mode == "zod").ok_or("UNPARSED: TauriDataParams not found")?;
+                keys.sort();
+                if keys != ["colorScheme", "maybeTheme", "newSize", "origin", "targetUrl"] { return Err(format!("keys {:?}, expected [colorScheme, maybeTheme, newSize, origin, targetUrl]: tauri::Theme, tauri::Url, tauri::LogicalSize and tauri::PhysicalPosition are data the frontend sends, only tauri::Window is injected", keys)); }
+                Ok(format!("{:?}", keys))
             });
             rep.case("omittable_keys_are_the_option_parameters", &format!("fn opt_paths(plain: Option<u32>, std_path: std::option::Option<u32>, core_path: core::option::Option<String>, abs_path: ::std::option::Option<bool>, required: u32) mode={}", mode), &|| {
                 let files = generate(&dir, &root.join(format!("inject/out_{}", mode)), mode)?;
@@ -620,6 +629,7 @@ fn main() {
             ("rename_digit", "#[serde(rename = \"2fa\")]", Some("2fa")),
             ("rename_space", "#[serde(rename = \"display name\")]", Some("display name")),
             ("default", "", Some("default")), ("package", "", Some("package")), ("class", "", Some("class")), ("new", "", Some("new")), ("delete", "", Some("delete")), ("interface", "", Some("interface")),
+            ("_id", "", Some("_id")), ("_rev_no", "", Some("_rev_no")), ("__v", "", Some("__v")),
             ("type_", "", Some("type_")),
             ("match_", "", Some("match_")),
             ("ref__", "", Some("ref__")),
@@ -797,7 +807,7 @@ fn main() {
             // functions carrying cfg / other attributes and qualifiers
             ("n-closure", ""), ("n-async-block-in-call", ""), ("n-unsafe-block", ""), ("n-if-let", ""), ("n-else-if", ""), ("n-while-let", ""), ("n-match-guard", ""), ("n-block-expr", ""), ("n-paren", ""), ("n-async-await", ""),
             ("g-vec-of-param", ""), ("g-opt-of-param", ""), ("g-tuple-of-param", ""), ("l-lifetime-only", ""), ("l-const-only", ""),
-            ("d-rest-first", ""), ("d-rest-last", ""), ("d-rest-tail", ""),
+            ("d-rest-first", ""), ("d-rest-last", ""), ("d-rest-tail", ""), ("w-shadowed", ""), ("w-shadowed-param", ""), ("w-rebound-in-block", ""),
             ("v-unit-variant", ""), ("v-struct-variant", ""), ("v-tuple-variant", ""), ("v-qualified-variant", ""), ("v-assoc-const", ""), ("v-ctor-call", ""), ("v-const", ""), ("v-tuple-literal", ""), ("v-unit-struct-path", ""),
             ("v-let-struct-variant", ""), ("v-let-tuple-variant", ""), ("v-let-vec-new", ""), ("v-let-map-new", ""), ("v-let-string-new", ""), ("v-let-fn-call", ""),
             ("u-vec-infer", ""), ("u-map-array", ""), ("u-tuple-array", ""), ("u-vec-array", ""),
@@ -853,6 +863,8 @@ fn main() {
             #[derive(Serialize, Deserialize, Clone)]\npub enum JobState { Running, Failed { code: u32 }, Done(u32) }\nimpl JobState { pub const IDLE: JobState = JobState::Running; pub fn fresh() -> Self { JobState::Running } }\npub const MAX_RETRIES: u32 = 3;\n#[derive(Serialize, Deserialize, Clone)]\npub struct Beat;\npub mod inner { pub fn load() -> u32 { 0 } }\n\
             pub fn values(app: &tauri::AppHandle) { app.emit(\"v-unit-variant\", JobState::Running).ok(); app.emit(\"v-struct-variant\", JobState::Failed { code: 1 }).ok(); app.emit(\"v-tuple-variant\", JobState::Done(3)).ok(); app.emit(\"v-qualified-variant\", crate::JobState::Running).ok(); app.emit(\"v-assoc-const\", JobState::IDLE).ok(); app.emit(\"v-ctor-call\", JobState::fresh()).ok(); app.emit(\"v-const\", MAX_RETRIES).ok(); app.emit(\"v-tuple-literal\", (1u32, \"x\")).ok(); app.emit(\"v-unit-struct-path\", crate::Beat).ok();\n\
                 let f = JobState::Failed { code: 2 }; app.emit(\"v-let-struct-variant\", f).ok(); let d = JobState::Done(1); app.emit(\"v-let-tuple-variant\", d).ok(); let v = Vec::new(); app.emit(\"v-let-vec-new\", v).ok(); let m = std::collections::HashMap::new(); app.emit(\"v-let-map-new\", m).ok(); let s = String::new(); app.emit(\"v-let-string-new\", s).ok(); let q = crate::inner::load(); app.emit(\"v-let-fn-call\", q).ok(); }\n\
+            #[derive(Serialize, Deserialize, Clone)]\npub struct RawSample { pub raw: u32 }\n#[derive(Serialize, Deserialize, Clone)]\npub struct SampleView { pub shown: String, pub unit: SampleUnit }\n#[derive(Serialize, Deserialize, Clone)]\npub enum SampleUnit { Metric }\nimpl SampleView { pub fn from(_r: RawSample) -> Self { todo!() } }\n\
+            pub fn shadowing(app: &tauri::AppHandle, reading: RawSample) { let sample = RawSample { raw: 1 }; let sample = SampleView::from(sample); app.emit(\"w-shadowed\", &sample).ok(); let reading: SampleView = SampleView::from(reading); app.emit(\"w-shadowed-param\", reading).ok(); let value: u32 = 1; { let value: String = String::new(); app.emit(\"w-rebound-in-block\", value).ok(); } let _ = value; }\n\
             pub fn destructured(app: &tauri::AppHandle, pair: (Player, ScanReport), triple: (u8, u16, u32)) { let (first, .., last): (Player, ScanReport) = pair; let (.., tail): (u8, u16, u32) = triple; let (head, ..) = (1u8, 2u8); let [a0, .., a9]: [u8; 4] = [1, 2, 3, 4]; app.emit(\"d-rest-first\", first).ok(); app.emit(\"d-rest-last\", last).ok(); app.emit(\"d-rest-tail\", tail).ok(); let _ = (head, a0, a9); }\n\
             pub fn struct_exprs(app: &tauri::AppHandle) { app.emit(\"s-path-struct\", crate::Player { id: 1 }).ok(); app.emit(\"s-path-struct-2\", self::Player { id: 2 }).ok(); app.emit(\"s-bare-struct\", Player { id: 3 }).ok(); }\n\
             pub fn late_init(app: &tauri::AppHandle, flag: bool) { let status: Player; if flag { status = Player { id: 1 }; } else { status = Player { id: 2 }; } app.emit(\"t-typed-late-init\", status.clone()).ok(); let count: u32; count = 3; app.emit(\"t-typed-late-init-2\", count).ok(); }\n\
@@ -885,7 +897,9 @@ fn main() {
             rep.case("mentioned_project_types_are_declared", &format!("project=emits mode={}", mode), &|| {
                 let files = files.as_ref().map_err(|e| e.clone())?;
                 let exp = exports_of(files.get("types.ts").ok_or("no types.ts")?);
-                for n in ["Player", "ScanReport", "ReportLine", "Ticket", "SyncStarted", "SyncFinished", "SyncReport", "TagOnlyInSets"] { if !exp.contains(n) && !exp.contains(&format!("{}Schema", n)) { return Err(format!("{} is the payload type of an emit site (or reachable from one) but types.ts does not declare it", n)); } }
+                for n in ["Player", "ScanReport", "ReportLine", "Ticket", "SyncStarted", "SyncFinished", "SyncReport", "TagOnlyInSets", "SampleView", "SampleUnit", "JobState", "Beat"] { if !exp.contains(n) && !exp.contains(&format!("{}Schema", n)) { return Err(format!("{} is the payload type of an emit site (or reachable from one) but types.ts does not declare it", n)); } }
+                // never emitted, never a command type: the value a payload variable held BEFORE it was re-bound is not reachable
+                for n in ["RawSample"] { if exp.contains(n) || exp.contains(&format!("{}Schema", n)) { return Err(format!("{} is declared although no command, channel or event reaches it (a variable of that type was re-bound before it was emitted)", n)); } }
                 types_module_is_closed(files, &["Player", "ScanReport", "ReportLine", "Ticket", "SyncStarted", "SyncFinished", "SyncReport", "TagOnlyInSets"])
             });
             rep.case("declared_function_names_are_legal", &format!("project=emits mode={}", mode), &|| declared_names_legal(files.as_ref().map_err(|e| e.clone())?));
@@ -902,6 +916,7 @@ fn main() {
                     ("v-unit-variant", "types.JobState"), ("v-struct-variant", "types.JobState"), ("v-tuple-variant", "types.JobState || unknown"), ("v-qualified-variant", "types.JobState"), ("v-assoc-const", "unknown || types.JobState"), ("v-ctor-call", "unknown || types.JobState"),
                     ("v-const", "unknown || number"), ("v-tuple-literal", "unknown || [number, string]"), ("v-unit-struct-path", "types.Beat"),
                     ("v-let-struct-variant", "types.JobState"), ("v-let-tuple-variant", "types.JobState || unknown"), ("v-let-vec-new", "unknown"), ("v-let-map-new", "unknown"), ("v-let-string-new", "string || unknown"), ("v-let-fn-call", "unknown || number"),
+                    ("w-shadowed", "types.SampleView"), ("w-shadowed-param", "types.SampleView"), ("w-rebound-in-block", "string"),
                     ("d-rest-first", "unknown || types.Player"), ("d-rest-last", "unknown || types.ScanReport"), ("d-rest-tail", "unknown || number"),
                     ("u-vec-infer", "unknown"), ("u-map-array", "unknown || Record<string, number[]>"), ("u-tuple-array", "unknown || [types.Player, number[]]"), ("u-vec-array", "unknown || number[][]"),
                     ("s-path-struct", "types.Player"), ("s-path-struct-2", "types.Player"), ("s-bare-struct", "types.Player"),
@@ -1266,6 +1281,8 @@ fn main() {
             #[tauri::command]\npub fn lookup(id: Uuid, at: Option<Timestamp>, on_tick: Channel<Timestamp>) -> Result<Option<Uuid>, String> {{ Ok(None) }}\n\
             #[tauri::command]\npub fn accounts(app: tauri::AppHandle, first: Uuid) -> Vec<Account> {{ app.emit(\"account:seen\", first).ok(); vec![] }}\n\
             #[tauri::command]\npub fn ids(on_id: Channel<Vec<Uuid>>) -> HashMap<Uuid, Vec<Timestamp>> {{ todo!() }}\n\
+            #[derive(Serialize, Deserialize, Clone)]\npub struct TickProgress {{ pub step: TickStep }}\n#[derive(Serialize, Deserialize, Clone)]\npub struct TickStep {{ pub n: u32 }}\n\
+            pub fn tick(app: &tauri::AppHandle, p: TickProgress) {{ app.emit(\"account:tick\", p).ok(); }}\n\
             pub fn touch(app: &tauri::AppHandle, when: Option<Timestamp>) {{ app.emit(\"account:touched\", when).ok(); }}\n\
             pub fn mark_a(app: &tauri::AppHandle, at: Timestamp) {{ app.emit(\"account:marked\", at).ok(); }}\n\
             pub fn mark_b(app: &tauri::AppHandle, at: u64) {{ app.emit(\"account:marked\", at).ok(); }}\n\
@@ -1312,6 +1329,23 @@ fn main() {
                 Ok("ok".into())
             });
             rep.case("type_references_resolve", &format!("project=mapped mode={}", mode), &|| references_resolve(res.as_ref().map_err(|e| e.clone())?, &["Account", "Stamped", "Span", "Visit", "LocalZone"]));
+            rep.case("unmapped_types_are_rendered_as_without_the_mapping", &format!("project=mapped mode={} set of declared names", mode), &|| {
+                let files = res.as_ref().map_err(|e| e.clone())?;
+                let out2 = root.join(format!("mapped/out_plain2_{}", mode));
+                let _ = fs::remove_dir_all(&out2);
+                let mut cfg2 = GenerateConfig::default();
+                cfg2.project_path = dir.to_string_lossy().to_string();
+                cfg2.output_path = out2.to_string_lossy().to_string();
+                cfg2.validation_library = mode.to_string();
+                generate_from_config(&cfg2).map_err(|e| format!("generate_from_config (no mapping) returned Err: {}", e))?;
+                let plain = exports_of(&fs::read_to_string(out2.join("types.ts")).map_err(|e| e.to_string())?);
+                let with = exports_of(files.get("types.ts").ok_or("no types.ts")?);
+                for n in &plain {
+                    if ["LocalStamp", "LocalStampSchema", "LocalZone", "LocalZoneSchema"].contains(&n.as_str()) { continue; } // the mapped project type and what only it reaches
+                    if !with.contains(n) { return Err(format!("`{}` is declared without a mapping table but not with one, although the table does not name it", n)); }
+                }
+                Ok(format!("{} names", plain.len()))
+            });
             if mode == "zod" { rep.case("schemas_defined_before_use", "project=mapped", &|| schemas_defined_before_use(res.as_ref().map_err(|e| e.clone())?.get("types.ts").ok_or("no types.ts")?)); }
             // C18: a type the mapping does not name is rendered exactly as without the mapping
             rep.case("unmapped_types_are_rendered_as_without_the_mapping", &format!("project=mapped mode={} type Span (the table has the key ext::Span, which names another type)", mode), &|| {
@@ -1400,6 +1434,35 @@ fn main() {
                 if mode == "none" && got != "Date" { return Err(format!("Meeting.starts_at is `{}`; the table maps DateTime<Utc> to Date", got)); }
                 if mode == "zod" && !got.contains("Date") { return Err(format!("Meeting.starts_at has the schema `{}`; the table maps DateTime<Utc> to Date", got)); }
                 Ok(got)
+            });
+        }
+    }
+    // ============================================================ C13 / C07: the same project generated 16 times (fresh hash seeds): foreign names next to nested project types
+    {
+        let src = format!("{}#[derive(Serialize, Deserialize)]\npub struct Album {{ pub id: Uuid, pub cover: Cover, pub folder: PathBuf }}\n#[derive(Serialize, Deserialize)]\npub struct Cover {{ pub url: String }}\n\
+            #[derive(Serialize, Deserialize)]\npub struct Track {{ pub id: Uuid, pub lyrics: Lyrics, pub at: Timestamp }}\n#[derive(Serialize, Deserialize)]\npub struct Lyrics {{ pub text: String }}\n#[derive(Serialize, Deserialize)]\npub struct LoadError {{ pub code: u32 }}\n\
+            #[tauri::command]\npub fn album(id: Uuid, from: PathBuf) -> Result<Album, LoadError> {{ todo!() }}\n#[tauri::command]\npub fn track(id: Uuid, at: Timestamp) -> Result<Track, LoadError> {{ todo!() }}\n", HDR);
+        let dir = root.join("repeat/src");
+        write_files(&dir, &[("lib.rs".to_string(), src)]);
+        for mode in ["none", "zod"] {
+            rep.case("repeated_generation_is_identical", &format!("project=repeat mode={} 16 runs", mode), &|| {
+                let mut first: Option<BTreeMap<String, String>> = None;
+                for run in 0..16 {
+                    let out = root.join(format!("repeat/out_{}_{}", mode, run));
+                    let _ = fs::remove_dir_all(&out);
+                    let mut cfg = GenerateConfig::default();
+                    cfg.project_path = dir.to_string_lossy().to_string();
+                    cfg.output_path = out.to_string_lossy().to_string();
+                    cfg.validation_library = mode.to_string();
+                    cfg.type_mappings = Some([("Uuid", "string"), ("PathBuf", "string"), ("Timestamp", "number")].iter().map(|(a, b)| (a.to_string(), b.to_string())).collect());
+                    generate_from_config(&cfg).map_err(|e| format!("generate_from_config returned Err: {}", e))?;
+                    let mut m = BTreeMap::new();
+                    for e in fs::read_dir(&out).map_err(|e| e.to_string())?.flatten() { if e.path().extension().map_or(false, |x| x == "ts") { m.insert(e.file_name().to_string_lossy().to_string(), without_timestamps(&fs::read_to_string(e.path()).unwrap_or_default())); } }
+                    let exp = exports_of(m.get("types.ts").ok_or("no types.ts")?);
+                    for n in ["Album", "Cover", "Track", "Lyrics"] { if !exp.contains(n) && !exp.contains(&format!("{}Schema", n)) { return Err(format!("run {}: {} is reachable from a command but not declared", run, n)); } }
+                    match &first { None => first = Some(m), Some(f) if *f != m => return Err(format!("run {} produced different files than run 0 for identical sources and configuration", run)), _ => {} }
+                }
+                Ok("ok".into())
             });
         }
     }
@@ -1617,12 +1680,14 @@ fn main() {
             pub mod shapes {{\n    use serde::{{Serialize, Deserialize}};\n    #[derive(Serialize, Deserialize)]\n    pub struct Point {{ pub x: f32 }}\n    #[derive(Serialize, Deserialize)]\n    pub struct Path {{ pub points: Vec<Point>, pub closed: bool }}\n    #[derive(Serialize, Deserialize)]\n    pub struct Url {{ pub host: String }}\n    #[derive(Serialize, Deserialize)]\n    pub struct Duration {{ pub beats: u32 }}\n}}\n\
             #[derive(Serialize, Deserialize)]\npub struct Sketch {{ pub outline: Vec<crate::shapes::Path>, pub home: shapes::Url, pub length: Option<shapes::Duration> }}\n\
             #[tauri::command]\npub fn sketch(first: shapes::Path) -> Sketch {{ todo!() }}\n\
+            #[allow(non_camel_case_types)]\n#[derive(Serialize, Deserialize)]\npub struct iOSConfig {{ pub bundle: String, pub store: eBayListing }}\n#[allow(non_camel_case_types)]\n#[derive(Serialize, Deserialize)]\npub struct eBayListing {{ pub id: u32 }}\n#[allow(non_camel_case_types)]\n#[derive(Serialize, Deserialize)]\npub enum macOSVersion {{ Sonoma, Sequoia }}\n#[derive(Serialize, Deserialize)]\npub struct _Hidden {{ pub v: macOSVersion }}\n\
+            #[tauri::command]\npub fn ios(cfg: iOSConfig, h: _Hidden) -> Vec<macOSVersion> {{ vec![] }}\n\
             #[cfg(not(test))]\npub mod backend {{\n    use serde::{{Serialize, Deserialize}};\n    #[derive(Serialize, Deserialize)]\n    pub struct DeviceInfo {{ pub firmware: Firmware }}\n    #[derive(Serialize, Deserialize)]\n    pub struct Firmware {{ pub version: String }}\n}}\n\
             #[cfg(feature = \"latest-api\")]\npub mod latest {{\n    use serde::{{Serialize, Deserialize}};\n    #[derive(Serialize, Deserialize)]\n    pub struct Capabilities {{ pub level: u8 }}\n}}\n\
             #[tauri::command]\npub fn device() -> backend::DeviceInfo {{ todo!() }}\n#[tauri::command]\npub fn capabilities() -> latest::Capabilities {{ todo!() }}\n", HDR);
         let dir = root.join("shadowed/src");
         write_files(&dir, &[("lib.rs".to_string(), src)]);
-        let tys = ["Telemetry", "Sample", "Phase", "Report", "Point", "Path", "Url", "Duration", "Sketch", "DeviceInfo", "Firmware", "Capabilities"];
+        let tys = ["Telemetry", "Sample", "Phase", "Report", "Point", "Path", "Url", "Duration", "Sketch", "DeviceInfo", "Firmware", "Capabilities", "iOSConfig", "eBayListing", "macOSVersion", "_Hidden"];
         for mode in ["none", "zod"] {
             let files = generate(&dir, &root.join(format!("shadowed/out_{}", mode)), mode);
             rep.case("mentioned_project_types_are_declared", &format!("project=shadowed mode={}", mode), &|| {
